@@ -152,7 +152,14 @@ func randFloat(r *gen.Rand) float64 {
 
 func randTime(r *gen.Rand, whole bool) time.Time {
 	y := r.Pick(1, 1970, 1999, 2000, 2024, 9999, r.Range(1900, 2100))
-	t := time.Date(y, time.Month(r.Range(1, 12)), r.Range(1, 28), 0, 0, 0, 0, time.UTC)
+	// every third time is kept in a zone other than UTC: a format without a zone
+	// writes the wall clock of THAT zone (and reads it back as UTC), a format
+	// with an offset preserves the instant
+	loc := time.UTC
+	if r.Intn(3) == 0 {
+		loc = time.FixedZone("", r.Pick(-5, 1, 9, -9)*3600+r.Pick(0, 0, 1800))
+	}
+	t := time.Date(y, time.Month(r.Range(1, 12)), r.Range(1, 28), 0, 0, 0, 0, loc)
 	if !whole {
 		t = t.Add(time.Duration(r.Range(0, 86399)) * time.Second)
 	}
@@ -187,8 +194,16 @@ func sameRow(a, b any) string {
 			}
 		case reflect.Struct:
 			ta, tb := fa.Interface().(time.Time), fb.Interface().(time.Time)
-			if !ta.Equal(tb) {
-				return fmt.Sprintf("field %s: wrote %v, read %v", name, ta, tb)
+			format := va.Type().Field(i).Tag.Get("format")
+			if format == "" {
+				format = helper.DefaultDateTimeFormat
+			}
+			if strings.Contains(format, "Z07") || strings.Contains(format, "-07") {
+				if !ta.Equal(tb) {
+					return fmt.Sprintf("field %s: wrote %v, read %v", name, ta, tb)
+				}
+			} else if ta.Format(format) != tb.Format(format) { // the declared format keeps the wall clock only
+				return fmt.Sprintf("field %s: wrote %v (%s in the declared format), read %v (%s)", name, ta, ta.Format(format), tb, tb.Format(format))
 			}
 		default:
 			if !reflect.DeepEqual(fa.Interface(), fb.Interface()) {
